@@ -17,7 +17,7 @@ import itertools
 
 from verif.gen import kits
 from verif.instrument import safe_repr
-from verif.models import meval, wiring
+from verif.models import meval, wiring, struct
 from verif.models import interchange_model as im
 from verif.models.typing import well_typed, tykey
 from verif.props.c05 import model_path
@@ -280,6 +280,7 @@ def run_case(rng, ctx):
     interp = meval.Interp("snake{}".format(ctx.index),
                           dims=(2, 3) if width <= 5 else (2,))
     reference = meval.evaluate(d, interp, max_size=3 ** 6 + 1)
+    key_before = repr(struct.key(d))
     witness = dict(diagram=lambda: safe_repr(d, 3000), offsets=d.offsets,
                    decorations=log)
     prev, steps, removed, moves, last = d, 0, 0, 0, d
@@ -362,6 +363,8 @@ def run_case(rng, ctx):
                  message=str(err)[:300], while_iterating="normal_form()",
                  mismatched_decoration=any(x.startswith("mismatched") for x in log),
                  cups_and_caps_of_last=cups, **witness)
+    ctx.expect("operands-unchanged", repr(struct.key(d)) == key_before,
+               diagram=lambda: safe_repr(d, 2000), offsets=lambda: d.offsets)
     if removed and moves:
         ctx.mark(safe_repr(d, 1500))
     if ctx.index < 25:
